@@ -566,7 +566,7 @@ class C16(Prop):
 class C14(Prop):
     id = "C14"
     module = "MioModel.Props.C14"
-    bins = ["rid", "net"]
+    bins = ["rid", "net", "udp"]
     run_bin = "rid"
     rule = ("cases = structured raw 64-bit values (single bits, complements, field boundaries, random widths) "
             "through ResourceId::from(raw) + accessors + Display and through the poll-token conversions; "
@@ -593,6 +593,10 @@ class C14(Prop):
         cmp = getattr(self, "compare", True)
         core.tie_run(stats, "rid", ["gen", seed, 300000 if tier == "thorough" else 20000], self.nontrivial, cmp)
         core.tie_run(stats, "net", ["gen", seed + 80, 200 if tier == "thorough" else 24], lambda c, t: "removed" in t or "disconnected" in t, cmp)
+        # datagram events name the receiving socket and the sender's own address (several senders, a sender on
+        # another loopback ip, both listener kinds)
+        core.tie_run(stats, "udp", ["gen", seed + 81, 150 if tier == "thorough" else 20],
+                     lambda c, t: "multi-sender" in t or "other-source-ip" in t, cmp)
 
 
 PROPS = {p.id: p() for p in [C01, C02, C03, C04, C05, C06, C07, C08, C09, C10, C11, C12, C13, C14, C15, C16, C17, C18, C19]}
